@@ -18,6 +18,8 @@ use simcore::Rng;
 use std::collections::BTreeSet;
 
 const TABLES: [&str; 2] = ["TA", "TB"];
+/// all tables whose contents are watched (TC is the foreign-key child of TA)
+const WATCHED: [&str; 3] = ["TA", "TB", "TC"];
 const ROLES: [&str; 2] = ["R1", "R2"];
 const PRIVS: [&str; 4] = ["SELECT", "INSERT", "UPDATE", "DELETE"];
 
@@ -40,7 +42,16 @@ fn gen_statement(rng: &mut Rng, next_key: &mut i64) -> (String, Vec<(String, Str
     let lit = rng.range(0, 6);
     *next_key += 1;
     let k = 100 + *next_key;
-    match rng.below(26) {
+    let d = |t: &str| (t.to_string(), "DELETE".to_string());
+    match rng.below(33) {
+        26 => (format!("SELECT COUNT(*) FROM {} LIMIT 1", a), vec![s(a)]),
+        27 => (format!("SELECT COUNT(*) FROM {} ORDER BY 1", a), vec![s(a)]),
+        28 => (format!("SELECT COUNT(*) FROM {} UNION SELECT -1 FROM {}", a, b), vec![s(a), s(b)]),
+        29 => (format!("SELECT k FROM {} ORDER BY k IN (SELECT k FROM {})", a, b), vec![s(a), s(b)]),
+        // TC references TA: emptying TA with CASCADE empties TC as well
+        30 => ("TRUNCATE TABLE TA CASCADE".to_string(), vec![d("TA"), d("TC")]),
+        31 => (format!("TRUNCATE TABLE {}", if a == "TA" { "TC" } else { "TB" }), vec![d(if a == "TA" { "TC" } else { "TB" })]),
+        32 => (format!("WITH c AS (SELECT 1 AS one FROM {}) SELECT COUNT(*) FROM {}", b, a), vec![s(a), s(b)]),
         0 => (format!("SELECT * FROM {}", a), vec![s(a)]),
         1 => (format!("SELECT * FROM {} WHERE v = {}", a, lit), vec![s(a)]),
         2 => (format!("SELECT * FROM {} WHERE k = {}", a, lit), vec![s(a)]),
@@ -78,7 +89,7 @@ impl Sec {
         o
     }
     fn contents(&self) -> Vec<Vec<String>> {
-        TABLES.iter().map(|t| bag(&table_rows(&self.sut, t).unwrap_or_default())).collect()
+        WATCHED.iter().map(|t| bag(&table_rows(&self.sut, t).unwrap_or_default())).collect()
     }
 }
 
@@ -102,6 +113,8 @@ impl Scenario for Sec {
                 adm("INSERT INTO ta VALUES (0, 1), (1, 3), (2, 3), (3, 5)"),
                 adm("INSERT INTO tb VALUES (1, 0), (2, 3), (4, 4)"),
                 adm("CREATE VIEW va AS SELECT k, v FROM ta"),
+                adm("CREATE TABLE tc (k INTEGER PRIMARY KEY, p INTEGER, FOREIGN KEY (p) REFERENCES ta(k))"),
+                adm("INSERT INTO tc VALUES (1, 0), (2, 1)"),
                 adm("CREATE ROLE r1"),
                 adm("CREATE ROLE r2"),
             ];
@@ -121,7 +134,7 @@ impl Scenario for Sec {
         Some(match rng.below(12) {
             0 | 1 | 2 => {
                 let r = *rng.pick(&ROLES);
-                let t = *rng.pick(&TABLES);
+                let t = *rng.pick(&WATCHED);
                 let p = if rng.chance(1, 6) { "ALL PRIVILEGES".to_string() } else { rng.pick(&PRIVS).to_string() };
                 let mut op = Op::new(Kind::Security, format!("GRANT {} ON {} TO {}", p, t, r)).table(t).named(r);
                 op.fault = format!("grant:{}", p);
@@ -129,7 +142,7 @@ impl Scenario for Sec {
             }
             3 | 4 => {
                 let r = *rng.pick(&ROLES);
-                let t = *rng.pick(&TABLES);
+                let t = *rng.pick(&WATCHED);
                 let p = if rng.chance(1, 6) { "ALL PRIVILEGES".to_string() } else { rng.pick(&PRIVS).to_string() };
                 let mut op = Op::new(Kind::Security, format!("REVOKE {} ON {} FROM {}", p, t, r)).table(t).named(r);
                 op.fault = format!("revoke:{}", p);
@@ -140,7 +153,11 @@ impl Scenario for Sec {
                 // keep the tables populated (as ADMIN)
                 self.next_key += 1;
                 let t = *rng.pick(&TABLES);
-                Op::new(Kind::Security, format!("INSERT INTO {} VALUES ({}, {})", t, 500 + self.next_key, rng.range(0, 6)))
+                if rng.chance(1, 3) {
+                    Op::new(Kind::Security, format!("INSERT INTO tc VALUES ({}, NULL)", 500 + self.next_key))
+                } else {
+                    Op::new(Kind::Security, format!("INSERT INTO {} VALUES ({}, {})", t, 500 + self.next_key, rng.range(0, 6)))
+                }
             }
             _ => {
                 let (sql, needs) = gen_statement(rng, &mut self.next_key);
